@@ -14,6 +14,7 @@ import (
 	"github.com/cockroachdb/errors/errorspb"
 	"github.com/cockroachdb/errors/extgrpc"
 	"github.com/cockroachdb/errors/exthttp"
+	libstatus "github.com/cockroachdb/errors/grpc/status"
 	"github.com/cockroachdb/logtags"
 	"github.com/cockroachdb/redact"
 	gogostatus "github.com/gogo/status"
@@ -100,6 +101,10 @@ func (b *Built) build(s *Spec) (res error) {
 		return errors.AssertionFailedf(Fmt3(S(0)), S(1), errors.Safe(S(2)))
 	case "unimpl":
 		return errors.UnimplementedError(errors.IssueLink{IssueURL: S(1), Detail: S(2)}, S(0))
+	case "unimplf":
+		return errors.UnimplementedErrorf(errors.IssueLink{IssueURL: S(3), Detail: S(4)}, Fmt3(S(0)), S(1), errors.Safe(S(2)))
+	case "stleaf":
+		return libstatus.Error(codes.Code(s.I[0]), S(0))
 	case "domnew":
 		return domains.New(S(0))
 	case "goerr":
@@ -163,6 +168,12 @@ func (b *Built) build(s *Spec) (res error) {
 		return errors.WithHint(c, S(0))
 	case "detail":
 		return errors.WithDetail(c, S(0))
+	case "hintf":
+		return errors.WithHintf(c, Fmt3(S(0)), S(1), errors.Safe(S(2)))
+	case "detailf":
+		return errors.WithDetailf(c, Fmt3(S(0)), S(1), errors.Safe(S(2)))
+	case "stwrap":
+		return libstatus.WrapErr(codes.Code(s.I[0]), S(0), c)
 	case "safedetails":
 		return errors.WithSafeDetails(c, Fmt3(S(0)), S(1), errors.Safe(S(2)))
 	case "telemetry":
